@@ -32,6 +32,8 @@ pub struct Overrides {
     /// Every datagram a daemon sends takes this many milliseconds of virtual time (the clock moves on inside the
     /// loop iteration, as it does on a real machine).
     pub send_cost_ms: Option<u64>,
+    /// Every daemon has multicast loop-back switched off right after its start (it does not hear itself).
+    pub no_loop: bool,
 }
 
 thread_local! {
@@ -715,6 +717,10 @@ impl World {
         );
         self.wait_parked(id);
         self.collect(id, 0, 0);
+        if OVERRIDES.with(|c| c.get()).is_some_and(|o| o.no_loop) {
+            self.set_multicast_loop_v4(id, false);
+            self.set_multicast_loop_v6(id, false);
+        }
         id
     }
 
